@@ -118,7 +118,7 @@ func c15Sequential(r *ev.Run) {
 	rnd := rand.New(rand.NewSource(r.Seed))
 	nseq := 6000
 	if r.Tier == "thorough" {
-		nseq = 25000
+		nseq = 100000
 	}
 	for si := 0; si < nseq; si++ {
 		naddr := 1 + rnd.Intn(8)
@@ -264,7 +264,7 @@ func hostsStr(hs []*host.Host) string {
 func c15Concurrent(r *ev.Run) {
 	rounds := 2000
 	if r.Tier == "thorough" {
-		rounds = 8000
+		rounds = 30000
 	}
 	rnd := rand.New(rand.NewSource(r.Seed + 3))
 	for ri := 0; ri < rounds; ri++ {
@@ -358,7 +358,7 @@ func c15Hysteresis(r *ev.Run) {
 	rnd := rand.New(rand.NewSource(r.Seed + 4))
 	runs := 1000
 	if r.Tier == "thorough" {
-		runs = 5000
+		runs = 20000
 	}
 	for ri := 0; ri < runs; ri++ {
 		fall := uint32([]int{1, 1, 2, 3, 7}[rnd.Intn(5)])
